@@ -16,6 +16,9 @@ var Hook func(n int) int
 var U64Hook func() uint64
 
 func IntN(n int) int {
+	if n <= 0 {
+		panic("invalid argument to IntN") // as math/rand/v2 does: the shim must not hide this
+	}
 	if Hook != nil {
 		return Hook(n)
 	}
